@@ -208,6 +208,15 @@ Theorem C07_lex_agrees_before_failure : forall bs cps stoks e ts es,
     Forall (fun n => (agreed_count (agreed cps stoks (is_end_error e)) <= n <= length cps)%nat) ns.
 Proof. exact lex_agrees_before_failure. Qed.
 
+(** ... and what the parser sees (mode 0) begins with the non-ignored agreed tokens *)
+Corollary C07_lex_agrees_before_failure_mode0 : forall bs cps stoks e ts es,
+  utf8_decode bs = Some cps -> spec_lex cps = (stoks, e) -> lex false bs = Done ts es ->
+  exists rest ns,
+    ts = significant_tokens (map token_of_stoken (agreed cps stoks (is_end_error e))) ++ rest /\
+    es = map (fun n => advance_pos (1, 1) n cps) ns /\
+    Forall (fun n => (agreed_count (agreed cps stoks (is_end_error e)) <= n <= length cps)%nat) ns.
+Proof. exact lex_agrees_before_failure_mode0. Qed.
+
 (** ** The public API under ARBITRARY call sequences (Lex/LexApi.v, Lex/LexApiSpec.v)
 
     [run m src cs]: the answers of a fresh scanner (mode [m], source [src]) to the calls [cs] —
@@ -264,3 +273,4 @@ Print Assumptions C07_api_call_order.
 Print Assumptions C07_api_never_panics.
 Print Assumptions C07_api_call_order_refuted_before_fix.
 Print Assumptions C07_lex_agrees_before_failure.
+Print Assumptions C07_lex_agrees_before_failure_mode0.
